@@ -158,6 +158,9 @@ func Discharge(obls []*Oblig, dir string, timeoutS int, par int, unanimous bool)
 	res := make([]*SolveResult, len(obls))
 	sem := make(chan struct{}, par)
 	var wg sync.WaitGroup
+	// phase 1 (sequential: term construction is not thread-safe): instantiate quantified hypotheses
+	// (see quant.go) and build the aggregated formula of every obligation
+	aggs := make([]*Term, len(obls))
 	for i, o := range obls {
 		r := &SolveResult{Name: o.name, Kind: o.kind, Paths: o.paths, Desc: o.desc, Pos: o.pos, Fn: o.fn}
 		res[i] = r
@@ -170,12 +173,27 @@ func Discharge(obls []*Oblig, dir string, timeoutS int, par int, unanimous bool)
 			r.Solver = "syntactic"
 			continue
 		}
+		if o.kind != "cover" {
+			for k, dj := range o.disj {
+				if containsQuant(dj) {
+					o.disj[k] = instantiateQuery(dj)
+				}
+			}
+		}
+		aggs[i] = Or(o.disj...)
+	}
+	// phase 2 (parallel): printing and solving only
+	for i, o := range obls {
+		if aggs[i] == nil {
+			continue
+		}
+		r := res[i]
 		wg.Add(1)
 		go func(i int, o *Oblig, r *SolveResult) {
 			defer wg.Done()
 			sem <- struct{}{}
 			defer func() { <-sem }()
-			script := Script([]*Term{Or(o.disj...)}, true, "")
+			script := Script([]*Term{aggs[i]}, true, "")
 			r.Bytes = len(script)
 			base := fmt.Sprintf("o%04d", i)
 			r.File = filepath.Join(dir, base)
@@ -244,4 +262,25 @@ func Discharge(obls []*Oblig, dir string, timeoutS int, par int, unanimous bool)
 	}
 	wg.Wait()
 	return res
+}
+
+func containsQuant(t *Term) bool {
+	seen := map[int]bool{}
+	var walk func(x *Term) bool
+	walk = func(x *Term) bool {
+		if seen[x.id] {
+			return false
+		}
+		seen[x.id] = true
+		if x.op == "forall" || x.op == "exists" {
+			return true
+		}
+		for _, a := range x.args {
+			if walk(a) {
+				return true
+			}
+		}
+		return false
+	}
+	return walk(t)
 }
